@@ -164,7 +164,13 @@ impl<T> Array<T> {
         let data = data.into();
         let shape = shape.into();
 
-        if data.len() == shape.elements() {
+        // The product of the axis lengths must not overflow: a wrapped product could
+        // spuriously match the number of elements
+        let elements = shape
+            .iter()
+            .try_fold(1usize, |acc, &n| acc.checked_mul(n));
+
+        if elements == Some(data.len()) {
             Ok(Array::new_unchecked(data, shape))
         } else {
             Err(ShapeError {
